@@ -193,7 +193,83 @@ def _remainder_name(fn: FuncInfo) -> str:
     raise AnalysisError(f'{fn.short}: remainder variable not found')
 
 
+def r07_6(ctx: Ctx):
+    """Integers of N*m bits.  The evolvent stores its dimension and density as the caller passed them - possibly
+    fixed-width numpy integers (np.int32 from an array of configurations).  `1 << (N*m)`, `2 ** (N*m)` computed from
+    them is evaluated in that width and wraps silently once N*m reaches it: every x then falls into one cell.  Such
+    magnitudes must be formed from values normalised with int()."""
+    rid = 'R07.6'
+    ctx.rule(rid, 'integer width: a shift or integer power whose exponent derives from the stored dimension / density '
+                  'operates on int()-normalised values (the stored attributes keep the caller\'s integer type)')
+    e = evo.evo_of(ctx)
+    init = e.cls.methods['__init__']
+    raw = set()
+    for p in C.normal_paths(ctx.explorer().explore(init)):
+        for (bk, fld), v in p.state.heap.items():
+            a = v.single_atom() if isinstance(v, RF) else None
+            if bk == ('var', init.param_names[0]) and isinstance(fld, str) and isinstance(a, tuple) and \
+                    len(a) == 2 and a[0] == 'var' and a[1] in init.param_names:
+                prm = [q for q in init.params if q.arg == a[1]]
+                ann = ast.unparse(prm[0].annotation) if prm and prm[0].annotation is not None else ''
+                if ann in ('int', '', 'np.int32', 'np.int64'):
+                    raw.add(fld)
+    try:
+        dens = {e.density_field()} & raw
+    except AnalysisError:
+        dens = set(raw)
+    # only exponents that grow with the number of levels can reach the width (N alone stays below 8)
+    all_raw, raw = raw, (dens or raw)
+    funcs = [f for f in e.cls.methods.values() if f.kind == 'function'] + \
+        [f for f in ctx.ix.funcs.values() if f.kind == 'function' and f.cls is None and f.module is e.cls.module]
+    n = 0
+    for f in funcs:
+        selfn = f.param_names[0] if f.param_names and f.cls is not None else None
+
+        def mentions_raw(x, tainted) -> bool:
+            # an occurrence outside an int(...) call
+            if isinstance(x, ast.Call) and isinstance(x.func, ast.Name) and x.func.id == 'int':
+                return False
+            if isinstance(x, ast.Attribute) and isinstance(x.value, ast.Name) and x.value.id == selfn and \
+                    x.attr in raw:
+                return True
+            if isinstance(x, ast.Name) and x.id in tainted:
+                return True
+            return any(mentions_raw(ch, tainted) for ch in ast.iter_child_nodes(x))
+        tainted = set()
+        for _ in range(4):
+            for st in ast.walk(f.node):
+                if isinstance(st, ast.Assign) and mentions_raw(st.value, tainted):
+                    for t in st.targets:
+                        for nm in ast.walk(t):
+                            if isinstance(nm, ast.Name) and isinstance(nm.ctx, ast.Store):
+                                tainted.add(nm.id)
+        for x in ast.walk(f.node):
+            base = expo = None
+            if isinstance(x, ast.BinOp) and isinstance(x.op, (ast.LShift, ast.Pow)):
+                base, expo = x.left, x.right
+            elif isinstance(x, ast.Call) and isinstance(x.func, ast.Name) and x.func.id == 'pow' and len(x.args) == 2:
+                base, expo = x.args
+            if base is None:
+                continue
+            int_base = (isinstance(base, ast.Constant) and isinstance(base.value, int) and
+                        not isinstance(base.value, bool)) or mentions_raw(base, tainted)
+            if not int_base:
+                continue
+            n += 1
+            ctx.check(not mentions_raw(expo, tainted), rid, f.short, f.loc(x),
+                      f'{ast.unparse(x)[:40]}: the exponent is a normalised int',
+                      f'{ast.unparse(x)[:60]} is computed from the stored dimension / density, which keep the integer '
+                      f'type the caller passed: with a 32-bit numpy integer the result wraps once the exponent '
+                      f'reaches 31 and every coordinate falls into one cell (normalise with int() first)',
+                      key=ctx.key_for(rid, f, x))
+    ctx.ok(rid, e.cls.name, f'{n} integer shifts / powers over the stored dimension or density; attributes stored '
+                            f'verbatim: {sorted(all_raw)}', e.cls.module.relpath)
+    ctx.floor(rid, 'attributes the evolvent stores verbatim from integer parameters', len(all_raw), 2)
+
+
 def check(ctx: Ctx):
+    if C.want(ctx, 'R07.6'):
+        r07_6(ctx)
     if C.want(ctx, 'R07.1'):
         r07_1(ctx)
     if C.want(ctx, 'R07.2') or C.want(ctx, 'R07.3'):
